@@ -119,7 +119,14 @@ class LStar:
         if key not in self.cache:
             lib = self.world.libraries[lib_idx]
             h = self.helper(data_idx)
-            arr, _ = lib.samples.pack(units=h.internal_units, names=h.packed_order)
+            # same arithmetic as JokerSamples.pack (column.to_value(unit), stacked) but done here on the table
+            # columns, so that state kept on the samples OBJECT by pack() cannot contaminate the reference
+            cols = []
+            for name in h.packed_order:
+                col = lib.samples.tbl[name]
+                unit = h.internal_units.get(name, col.unit)
+                cols.append(np.asarray(col.to_value(unit)))
+            arr = np.stack(cols, axis=1)
             self.cache[key] = np.ascontiguousarray(arr, dtype=np.float64)
         return self.cache[key]
 
